@@ -22,6 +22,9 @@ def run(F, tier):
     # the typed API, the wrapper enum and the plugin must give one verdict for one message: the adapters around
     # validate_network_rules keep every error and derive validity from that list only
     valid.s3(rep, F)
+    # the announced type is what block 2 says: which search primitive locates a block is part of the dispatch
+    from . import accept
+    accept.u6(rep, F, "blocks")
     rep.programs = len(tabs) + len(ids)
     rep.cells = sum(len(t.arms) for t in tabs)
     for t in tabs[:6]:
